@@ -75,17 +75,35 @@ package benchproc
 //@     invariant 0 <= idx() <= len(flat) && lessFrom(flat, a, b, 0) == lessFrom(flat, a, b, idx())
 //@     decreases len(flat) - idx()
 
-// cmpOK: every field's comparator is a total preorder on strings: reversing
-// the arguments reverses the sign, and <= is transitive.
-//@ pure func cmpOK(flat []*Field) bool = forall i int, x string, y string, z string :: 0 <= i < len(flat) ==>
-//@     ((apply(flat[i].cmp, x, y) < 0) <==> (apply(flat[i].cmp, y, x) > 0)) &&
-//@     ((apply(flat[i].cmp, x, y) == 0) <==> (apply(flat[i].cmp, y, x) == 0)) &&
-//@     (apply(flat[i].cmp, x, y) <= 0 && apply(flat[i].cmp, y, z) <= 0 ==> apply(flat[i].cmp, x, z) <= 0)
+// cmpOK1: a field's comparator is a total preorder on strings: reversing the
+// arguments reverses the sign, and <= is transitive.
+//@ pure func cmpOK1(f *Field) bool = forall x string, y string, z string ::
+//@     ((apply(f.cmp, x, y) < 0) <==> (apply(f.cmp, y, x) > 0)) &&
+//@     ((apply(f.cmp, x, y) == 0) <==> (apply(f.cmp, y, x) == 0)) &&
+//@     (apply(f.cmp, x, y) <= 0 && apply(f.cmp, y, z) <= 0 ==> apply(f.cmp, x, z) <= 0)
+//@ pure func cmpOK(flat []*Field) bool = forall i int :: 0 <= i < len(flat) ==> cmpOK1(flat[i])
 
-// Property lemmas of C09, each proved by induction on the field index (the
-// recursive call is the induction hypothesis; the ghost functions are never
-// called at run time).  Together: less is a strict total order on keys whose
+// Property lemmas of C09 (ghost functions, never called at run time; a call
+// inside a lemma body instantiates another lemma, a recursive call is the
+// induction hypothesis).  Together: less is a strict total order on keys whose
 // value vectors differ in some flattened field.
+
+// One field: "before" (comparator, then bytewise fallback) is a strict total order on strings.
+//@ func verifC09Field(f *Field, x, y, z string)
+//@   lemma
+//@   props C09
+//@   requires f != nil && cmpOK1(f)
+//@   ensures !before(f, x, x)
+//@   ensures x != y ==> (before(f, x, y) <==> !before(f, y, x))
+//@   ensures before(f, x, y) && before(f, y, z) ==> before(f, x, z)
+func verifC09Field(f *Field, x, y, z string) {}
+
+func verifFval(v []string, f *Field) string {
+	if f.idx < len(v) {
+		return v[f.idx]
+	}
+	return ""
+}
 
 //@ func verifC09Asym(flat []*Field, a, b []string, i int)
 //@   lemma
@@ -94,6 +112,7 @@ package benchproc
 //@   ensures lessFrom(flat, a, b, i) ==> !lessFrom(flat, b, a, i)
 func verifC09Asym(flat []*Field, a, b []string, i int) {
 	if i < len(flat) {
+		verifC09Field(flat[i], verifFval(a, flat[i]), verifFval(b, flat[i]), "")
 		verifC09Asym(flat, a, b, i+1)
 	}
 }
@@ -105,6 +124,7 @@ func verifC09Asym(flat []*Field, a, b []string, i int) {
 //@   ensures lessFrom(flat, a, b, i) && lessFrom(flat, b, c, i) ==> lessFrom(flat, a, c, i)
 func verifC09Trans(flat []*Field, a, b, c []string, i int) {
 	if i < len(flat) {
+		verifC09Field(flat[i], verifFval(a, flat[i]), verifFval(b, flat[i]), verifFval(c, flat[i]))
 		verifC09Trans(flat, a, b, c, i+1)
 	}
 }
@@ -117,6 +137,7 @@ func verifC09Trans(flat []*Field, a, b, c []string, i int) {
 //@   ensures (forall j int :: i <= j < len(flat) ==> fval(a, flat[j]) == fval(b, flat[j])) ==> !lessFrom(flat, a, b, i)
 func verifC09Total(flat []*Field, a, b []string, i int) {
 	if i < len(flat) {
+		verifC09Field(flat[i], verifFval(a, flat[i]), verifFval(b, flat[i]), "")
 		verifC09Total(flat, a, b, i+1)
 	}
 }
